@@ -120,7 +120,7 @@ Timer == /\ Is("timer")
                        Check("timer.step", Ev.step = step + 1),
                        Check("timer.time", Ev.time = ClockTime(S.clock, Ev.step)),
                        Check("timer.within_run", Ev.step <= LastStep),
-                       Check("startup.empty_release_refused", Warm \/ ~NoRowInWindow(S.cfg, S.table))>>))
+                       Check("startup.empty_release_refused", Warm \/ ~NoRowInWindow(S.cfg, S.table) \/ TailRelease(S.cfg, S.table))>>))
          /\ step' = Ev.step /\ pc' = "release"
          /\ UNCHANGED <<tid, S, parts, npid, born, vels, hist, closed, dead, catch>>
 
